@@ -5,7 +5,7 @@ from ..e1 import engine, gen, oracles, reduce, sim
 RULE = ("yield-only programs (no synchronous re-entry) with unequal depths so that requests become issuable in different rounds, DAG sharing, errors, "
         "try/except, contexts, 1-3 batch kinds and generated priority tables; non-trivial = at least 2 flushes and at least one task ran between two flushes; "
         "distinct = distinct program JSON. (after-a-leftover-request) the same invariant for a program that starts while the scheduler still holds a request "
-        "registered by an earlier computation (whose task failed while parked on it); non-trivial = a request was left and the program flushes")
+        "registered by an earlier computation (whose task failed while parked on it); non-trivial = a request was left and the program flushes The invariant campaign has failing flush bodies and deduplicated / cached / generator leaves; one campaign starts programs while a request of an earlier computation is still registered.")
 ASSUMPTIONS = ["with several batch kinds the number of flushes is schedule-dependent, so only the per-flush invariant is asserted there; "
                "flush count and contents are compared with the round simulator for single-kind programs"]
 
